@@ -246,6 +246,35 @@ def profiles():
     return {"default": defaultOptimizer, "fast": fastOptimizer}
 
 
+class Budget(Exception):
+    """an instance exceeded its time budget: it is skipped and counted, never a verdict"""
+
+
+class time_budget:
+    """with time_budget(secs): ...  raises Budget inside the block when the wall-clock budget is exceeded (worker processes only)"""
+
+    def __init__(self, secs):
+        self.secs = secs
+
+    def __enter__(self):
+        import signal
+
+        def onalarm(sig, frm):
+            raise Budget(f"more than {self.secs} s")
+        self._old = signal.signal(signal.SIGALRM, onalarm)
+        signal.setitimer(signal.ITIMER_REAL, self.secs)
+        return self
+
+    def __exit__(self, *a):
+        import signal
+        signal.setitimer(signal.ITIMER_REAL, 0)
+        signal.signal(signal.SIGALRM, self._old)
+        return False
+
+
+INSTANCE_BUDGET_S = float(os.environ.get("VERIF_INSTANCE_BUDGET", "90"))
+
+
 def front_end(src, profile, compile_=False, uncompute=True):
     from qlasskit import qlassf
     return qlassf(src, to_compile=compile_, bool_optimizer=profiles()[profile], uncompute=uncompute)
